@@ -16,7 +16,7 @@ import (
 
 func init() {
 	register(&Prop{ID: "C16", Run: runC16, MinNontrivial: 500,
-		Rule:        "cases = (BuildAuthBodyPost, BuildAuthBodyPostFromDocument, BuildLogoutBodyPostFromDocument, BuildLogoutResponseBodyPostFromDocument) x relay states (quotes, angle brackets, ampersands, </form>, </script>, script fragments, attribute breakers, newlines, CR, non-ASCII, astral, long) x signed/unsigned/caller-made documents x URL-safe IdP endpoints with and without query; oracle tokenises the page with golang.org/x/net/html (an HTML5 tokenizer independent of html/template) and requires exactly the expected token sequence: one form (action == endpoint), hidden SAMLRequest|SAMLResponse == base64(doc.WriteToBytes()), RelayState input present iff non-empty and equal after entity decoding, the submit input, script elements with the fixed template text, nothing else; non-trivial = a page was produced; distinct by parameter tuple",
+		Rule:        "cases = (BuildAuthBodyPost, BuildAuthBodyPostFromDocument, BuildLogoutBodyPostFromDocument, BuildLogoutResponseBodyPostFromDocument) x relay states (quotes, angle brackets, ampersands, </form>, </script>, script fragments, attribute breakers, newlines, CR, non-ASCII, astral, long) x signed/unsigned/caller-made documents x URL-safe IdP endpoints with and without query; oracle tokenises the page with golang.org/x/net/html (an HTML5 tokenizer independent of html/template) and requires exactly the expected token sequence: one form (action == endpoint), hidden SAMLRequest|SAMLResponse == base64(doc.WriteToBytes()), RelayState input present iff non-empty and equal after entity decoding, the submit input, script elements with the fixed template text, nothing else; non-trivial = a page was produced; distinct by parameter tuple; relay states swept over every string literal of the library source; IdP endpoints re-configured between building the document and rendering",
 		Assumptions: []string{"NUL and U+000D are excluded from relay states (not representable in an HTML form: HTML input-stream preprocessing turns CR/CRLF into LF, and form submission re-normalises newlines)", "IdP endpoints are URL-safe (html/template normalises exotic URLs in action=)"}})
 }
 
